@@ -217,6 +217,58 @@ def jobs(tier):
     return out
 
 
+def _shared_job(kw):
+    """The corrected operator of an observable must not depend on another observable having been requested with the same kinematics objects."""
+    from .. import model
+
+    proj = model.project()
+    kw = dict(kw)
+    obs, before = kw.pop("obs"), kw.pop("before")
+    try:
+        alone = O.fold_op(proj, R.Cell(obs=obs, **kw))
+        shared = O.fold_op(proj, R.Cell(obs=obs, shared_before=before, **kw))
+    except O.FoldFailure as f:
+        return ("fold", f.outcome.status, f"{f.outcome.etype} {f.outcome.msg}"[:160])
+    bad = []
+    n = 0
+    for key in sorted(alone.keys() | shared.keys()):
+        for p in alone.pids:
+            for j in range(R.GRID_N):
+                n += 1
+                if not O.same(alone.entry(key, p, j), shared.entry(key, p, j)):
+                    bad.append((key, p, j, O.diff_text(shared.entry(key, p, j), alone.entry(key, p, j))))
+    return ("cmp", n, bad[:2], len(bad))
+
+
+def check_shared(rep, proj, tier):
+    jobs_ = []
+    for (obs, before), mode, (fns, nfff, nf) in itertools.product(
+        [("FL_total", ("F2_total",)), ("F2_total", ("F3_total", "FL_total")), ("F3_total", ("F2_total",)), ("g1_total", ("F2_total",))], [1, 2, 3],
+        [("ZM-VFNS", 4, 4)] if tier == "quick" else [("ZM-VFNS", 4, 4), ("FFNS", 3, None)]
+    ):
+        jobs_.append(dict(obs=obs, before=before, process="NC", projectile="electron", fns=fns, nfff=nfff, nf=nf, pto=1, tmc=mode, ren_sv=False, fact_sv=False))
+    outs = sweep.run_cells(_shared_job, jobs_)
+    n_cmp = 0
+    for kw, o in zip(jobs_, outs):
+        label = f"{kw['obs']} after {'+'.join(kw['before'])} (one kinematics list)|{kw['fns']}|TMC={kw['tmc']}"
+        if o[0] == "fold":
+            if o[1] == "rejected":
+                rep.ok("C10.shared", "", label, f"configuration explicitly rejected ({o[2][:50]})")
+            else:
+                rep.undecided("C10.shared", "", label, f"not foldable ({o[1]}): {o[2]}")
+            continue
+        _, n, bad, nbad = o
+        n_cmp += n
+        if nbad:
+            key, p, j, txt = bad[0]
+            rep.bad("C10.shared", "src/yadism/esf/tmc.py", label,
+                    f"{nbad} of {n} entries differ from the operator of the observable requested alone (the corrected point moves when the kinematics "
+                    f"objects are shared), e.g. order {key} pid {p} node {j}: {txt[:300]}", key=label)
+        else:
+            rep.ok("C10.shared", "", label, f"{n} entries identical to the observable requested alone")
+    rep.floor("shared-kinematics entries compared", n_cmp, 500)
+
+
 def check_vars_and_limits(rep, proj):
     """xi, rho, mu as folded from the TMC constructor == published definitions; integral coefficients carry mu;
     the F(xi) coefficient -> 1 and xi -> x as mu -> 0."""
@@ -273,6 +325,7 @@ def run(rep, proj, tier):
         "without TMC at the Nachtmann point and at the grid nodes, with the integrals being the opaque quadratures of the kernels whose folded "
         "closed form is z/xi (h2, h3, K1), 1-z (g2), z ln(1/z)/xi (K2) convolved with the right structure function. Also xi, rho, mu and the shifted "
         "kinematics equal their definitions, integral coefficients vanish and the F(xi) coefficient tends to 1 as M -> 0. "
+        "The corrected operator of an observable is the same whether or not other observables were requested before it with the very same kinematics objects. "
         "NOT decided: quadrature accuracy. Rejection of out-of-grid shifted points is decided in C16.kin."
     )
     rep.rule_text = "jobs from literal domains; entries = order key x parton row x basis node; distinct by job label; non-trivial = TMC and raw operators fold."
@@ -281,6 +334,7 @@ def run(rep, proj, tier):
     rep.assumptions = ["yadism's F3 observable is xF3 and its g1 observable is 2xg1 (LO operators, decided in C02.lo)",
                        "APFEL mode = exact formula with the nested integrals (g2, K2) dropped (docs/source/theory/misc.rst)"]
     check_vars_and_limits(rep, proj)
+    check_shared(rep, proj, tier)
     js = jobs(tier)
     outs = sweep.run_cells(_job, js)
     n_entries = 0
